@@ -5,3 +5,5 @@ import GoImap.Props.C15
 #print axioms GoImap.C15.merge_fail
 #print axioms GoImap.C15.canon_iff_canonical
 #print axioms GoImap.C15.search_first
+#print axioms GoImap.C15.nums_spec
+#print axioms GoImap.C15.nums_dynamic
